@@ -86,7 +86,8 @@ def hist_parse(case, go):
 
 
 PARSE_ASSUME = [
-    "bufio.Scanner is re-modelled, not verified (pending bytes, buffer growth, ErrTooLong rule, final token at EOF)",
+    "bufio.Scanner: its model's Scan is proved equal to the toolchain's scan.go as translated (GenEquivScan.Scan_eq); "
+    "NewScanner/Buffer/Text glue and the io.Reader are re-modelled and compared",
     "io.Reader contract: every Read returns at least one byte or an error",
     "byte-level reading of the WHATWG algorithm (values are raw bytes; invalid UTF-8 passes through)",
 ]
